@@ -44,9 +44,14 @@
 
    The object-store backend wraps each of these in its own copy of the
    load / decide / conditional-PUT retry loop = Base/CasProto.v with
-   [s3_decide]; the in-memory backend applies [local_apply] atomically. *)
+   [s3_decide]; the in-memory backend applies [local_apply] atomically.
+
+   [lease_body] states the bodies with the named predicates [expired] / [live]
+   / [is_active]; [lease_body_code] is the same with the comparison expressions
+   translated from the Rust sources (generated/Funs.v) and is what the two
+   backends run. *)
 From CS Require Import Base.Prelude Base.CasProto.
-From CSGen Require Import Consts.
+From CSGen Require Import Consts Funs.
 Open Scope Z_scope.
 
 Inductive lstatus : Type := Active | Completed | Failed.
@@ -157,13 +162,97 @@ Definition lease_body (b : backend) (cfg : lcfg) (now : Z) (op : lop) (t : table
       end
   end.
 
+(* ---------------- the bodies with the comparisons as written in the code ----
+   generated/Funs.v holds the boolean expressions of the retain / filter / if
+   conditions, translated from the Rust sources on every run (LeaseStatus as
+   Z: Active = 0).  [lease_body_code] is [lease_body] with those expressions in
+   place of [expired] / [live] / [is_active]; it is what the backends below
+   (and the extracted model) execute.  Proofs/LeaseProofs.v shows that the two
+   agree (body_code_eq) — a changed operator in the code breaks that proof. *)
+Definition status_code (s : lstatus) : Z :=
+  match s with Active => 0 | Completed => 1 | Failed => 2 end.
+Definition active_code : Z := 0.
+
+Definition acq_keep (b : backend) (now : Z) (l : lease) : bool :=
+  match b with
+  | ObjectStore => Funs.lease_s3_acquire_keep (status_code (l_status l)) active_code (l_expires l) now
+  | InMemory => Funs.lease_local_acquire_keep (status_code (l_status l)) active_code (l_expires l) now
+  end.
+
+Definition acq_live (b : backend) (now : Z) (l : lease) : bool :=
+  match b with
+  | ObjectStore => Funs.lease_s3_acquire_live (status_code (l_status l)) active_code (l_expires l) now
+  | InMemory => Funs.lease_local_acquire_live (status_code (l_status l)) active_code (l_expires l) now
+  end.
+
+Definition renew_refuse (b : backend) (now : Z) (l : lease) : bool :=
+  match b with
+  | ObjectStore => Funs.lease_s3_renew_refuse (status_code (l_status l)) active_code (l_expires l) now
+  | InMemory => Funs.lease_local_renew_refuse (status_code (l_status l)) active_code (l_expires l) now
+  end.
+
+(* `if <cond> { <then> } else { false }` *)
+Definition scav_keep (b : backend) (now : Z) (l : lease) : bool :=
+  match b with
+  | ObjectStore =>
+      if Funs.lease_s3_scavenge_cond (status_code (l_status l)) active_code (l_expires l) now
+      then Funs.lease_s3_scavenge_then (status_code (l_status l)) active_code (l_expires l) now
+      else false
+  | InMemory =>
+      if Funs.lease_local_scavenge_cond (status_code (l_status l)) active_code (l_expires l) now
+      then Funs.lease_local_scavenge_then (status_code (l_status l)) active_code (l_expires l) now
+      else false
+  end.
+
+Definition lease_body_code (b : backend) (cfg : lcfg) (now : Z) (op : lop) (t : table) : eff :=
+  match op with
+  | OAcquire id holder chunks level =>
+      let t1 := filter (fun x => acq_keep b now (snd x)) t in
+      let taken := flat_map (fun x => if acq_live b now (snd x) then l_chunks (snd x) else []) t1 in
+      match filter (fun c => memN c taken) chunks with
+      | [] =>
+          let l := mkLease holder chunks level now (now + acq_ttl cfg) Active in
+          Write (aset N.eqb id l t1) (RLease id l)
+      | c :: r =>
+          match b with
+          | ObjectStore => NoWrite (EConflict (c :: r))
+          | InMemory => Write t1 (EConflict (c :: r))
+          end
+      end
+  | ORenew id =>
+      match aget N.eqb id t with
+      | Some l =>
+          if renew_refuse b now l
+          then NoWrite ENotActive
+          else Write (aset N.eqb id (set_expires l (now + renew_ext cfg)) t) RUnit
+      | None => NoWrite ENotFound
+      end
+  | OComplete id =>
+      match aget N.eqb id t with
+      | Some l => Write (aset N.eqb id (set_status l Completed) t) RUnit
+      | None => NoWrite RUnit
+      end
+  | OFail id =>
+      match aget N.eqb id t with
+      | Some l => Write (aset N.eqb id (set_status l Failed) t) RUnit
+      | None => NoWrite RUnit
+      end
+  | OScavenge =>
+      let t1 := filter (fun x => scav_keep b now (snd x)) t in
+      let removed := N.of_nat (length t - length t1) in
+      match b with
+      | ObjectStore => if N.eqb removed 0 then NoWrite (RCount 0) else Write t1 (RCount removed)
+      | InMemory => Write t1 (RCount removed)
+      end
+  end.
+
 (* ---------------- object-store backend: a CasProto instance ---------------- *)
 
 (* a missing compaction-leases.json loads as the empty table (etag "none") *)
 Definition tbl (v : option table) : table := match v with Some t => t | None => [] end.
 
 Definition lease_decide (cfg : lcfg) (now : Z) (op : lop) (v : option table) : decision table lout :=
-  match lease_body ObjectStore cfg now op (tbl v) with
+  match lease_body_code ObjectStore cfg now op (tbl v) with
   | Write t' o => Commit t' o
   | NoWrite o => Abort o
   end.
@@ -185,7 +274,7 @@ Definition s3_init (v0 : option table) (now0 : Z) (progs : nat -> list lop) : ls
 
 (* ---------------- in-memory backend: atomic operations ---------------- *)
 Definition local_apply (cfg : lcfg) (now : Z) (op : lop) (t : table) : table * lout :=
-  match lease_body InMemory cfg now op t with
+  match lease_body_code InMemory cfg now op t with
   | Write t' o => (t', o)
   | NoWrite o => (t, o)
   end.
